@@ -4,7 +4,7 @@
 # itself is not disturbed while other jobs read it), runs the property's check
 # against that copy (VERIF_REPO), prints the verdict and removes the worktree.
 # Final confirmation against /repo itself: git -C /repo apply patch.diff; check; git -C /repo checkout -- .
-d="$1"; tier="${2:-quick}"
+d="$(cd "$1" && pwd)"; tier="${2:-quick}"
 prop=$(python3 -c "import json,sys;print(json.load(open('$d/meta.json'))['property'])")
 [ -n "$3" ] && prop="$3"   # run another property's check against this seed
 name=$(basename "$d")
